@@ -429,10 +429,43 @@ func (c *FnCtx) useContract(fr *Frame, st *State, ct *FuncContract, callee *ssa.
 	c.bindResults(post, sig, res)
 	var facts []Term
 	for i := range ct.Ensures {
-		facts = append(facts, c.safeEvalBool(post, &ct.Ensures[i]))
+		facts = append(facts, c.evalEnsuresAtCall(post, &ct.Ensures[i], callee))
 	}
 	st.pc = c.vc.Name("pc", And(append([]Term{st.pc}, facts...)...))
 	return res
+}
+
+// evalEnsuresAtCall: a postcondition that names a local variable of the callee speaks about
+// the callee's internal state; it is verified in the callee but gives callers nothing (skipped,
+// which only weakens what the caller may assume).
+func (c *FnCtx) evalEnsuresAtCall(e *SpecEnv, cl *Clause, callee *ssa.Function) (t Term) {
+	defer func() {
+		if r := recover(); r != nil {
+			if se, ok := r.(specError); ok {
+				const pfx = "unknown identifier "
+				if callee != nil && strings.HasPrefix(se.msg, pfx) && calleeHasLocal(callee, strings.TrimPrefix(se.msg, pfx)) {
+					t = TTrue
+					return
+				}
+				c.eng.errorf("%s:%d: clause %q: %s", cl.File, cl.Line, cl.Text, se.msg)
+				t = TTrue
+				return
+			}
+			panic(r)
+		}
+	}()
+	return e.evalBool(cl.Expr)
+}
+
+func calleeHasLocal(fn *ssa.Function, name string) bool {
+	for _, b := range fn.Blocks {
+		for _, in := range b.Instrs {
+			if a, ok := in.(*ssa.Alloc); ok && a.Comment == name {
+				return true
+			}
+		}
+	}
+	return false
 }
 
 func (e *SpecEnv) bindLetsAt(ct *FuncContract, at *State) {
@@ -530,6 +563,17 @@ func (c *FnCtx) applyModifiesEnv(fr *Frame, st *State, env0 *SpecEnv, ct *FuncCo
 					}
 					if id, ok := call.Fun.(*ast.Ident); ok && id.Name == "elems" && len(call.Args) == 1 {
 						c.havocElems(st, env, call.Args[0])
+						return
+					}
+					if id, ok := call.Fun.(*ast.Ident); ok && id.Name == "effects" && len(call.Args) == 1 {
+						v, _ := env.eval(call.Args[0])
+						ms := newModSet()
+						if f, ok := v.(Fn); ok && f.F != nil {
+							c.fnMods(f.F, ms, 1)
+						} else {
+							ms.all = true
+						}
+						c.havoc(st, fr, ms, "modifies "+m.Text)
 						return
 					}
 				}
@@ -694,6 +738,29 @@ func (c *FnCtx) modHeapNames(ct *FuncContract, m *Clause) (map[string]Sort, bool
 	ms := newModSet()
 	if fn == "*" {
 		c.addStructFields(ms, t, 0)
+		return ms.heaps, true
+	}
+	if strings.HasPrefix(fn, "*!") {
+		// `T::*!f!g`: every field of T except f and g
+		c.addStructFields(ms, t, 0)
+		for _, ex := range strings.Split(fn[2:], "!") {
+			ex = strings.TrimSpace(ex)
+			found := false
+			for i := 0; i < s.NumFields(); i++ {
+				if s.Field(i).Name() == ex {
+					found = true
+				}
+			}
+			if !found {
+				return nil, false
+			}
+			pre := fieldPrefix(t, ex)
+			for n := range ms.heaps {
+				if n == pre || strings.HasPrefix(n, pre+"$") {
+					delete(ms.heaps, n)
+				}
+			}
+		}
 		return ms.heaps, true
 	}
 	for i := 0; i < s.NumFields(); i++ {
@@ -1149,7 +1216,10 @@ func (c *FnCtx) appendElems(st *State, et types.Type, old Sl, res Sl, add SV, in
 		c.vc.Assert(Implies(inPlace, Term{fmt.Sprintf("(forall ((j Int)) (! (=> (or (< j (+ %s %s)) (>= j (+ %s %s))) (= (select %s j) (select %s j))) :pattern ((select %s j))))",
 			res.Off.S, old.Len.S, res.Off.S, res.Len.S, nw.S, dstOld.S, nw.S), SBool}))
 		c.heapSet(st, name, c.vc.Name("h", Store(h, res.Arr, nw)))
-		c.noteWrite(st, name, &Loc{Prefix: prefix, Idx: res.Arr, T: et})
+		// an append of zero elements writes nothing (frame)
+		stw := *st
+		stw.pc = And(st.pc, App(SBool, ">", addLen, IntLit(0)))
+		c.noteWrite(&stw, name, &Loc{Prefix: prefix, Idx: res.Arr, T: et})
 	}
 }
 
